@@ -69,9 +69,9 @@ CLAIMED = {
         "§6 C14",
     ),
     "C07": (
-        "Lean 4 theorems: each enrolment block update solves its normal equations with a positive-definite precision (speaker factors y, per-session channel factors x_h, diagonal system for z), Exec (Vector) enrolment = Spec enrolment; Float model vs update_y / compute_latent_x / update_z / enroll for ISV and JFA and the model's joint log-posterior vs an independent NumPy evaluation",
-        "Proof (partial): the three updates are the unique solutions of the block linear systems of the joint Gaussian posterior under mean = m + V y + U x_h + D z (positive-definite precisions, any number of sessions, fractional counts). Still to be proved in Lean: block argmax of logPost, monotone ascent, uniqueness of the mode, convergence; these clauses are currently covered by the search only (posterior trajectory, joint mode by solving the joint linear system).",
-        "Real arithmetic; np.linalg.inv is a parameter (contract: exact inverse). Partial: monotonicity/convergence clauses are not yet theorems. Found and fixed D7.",
+        "Lean 4 theorems: every enrolment block update (speaker factors y, all per-session channel factors x_h, residual offset z) is the maximiser of the joint log-posterior logPost in its block (generic block_max lemma = concave quadratic maximisation, instantiated by rearranging the model's sums), hence one sweep and the whole enrolment are monotone in logPost for ISV and JFA, any number of sessions, fractional counts; normal equations of each block; Exec (Vector) = Spec; Float model vs update_y / compute_latent_x / update_z / enroll and the model's logPost vs an independent NumPy evaluation",
+        "Proof for all UBMs with positive variances, all U, V, D, all lists of enrolment statistics with non-negative counts and every number of iterations: logPost (enroll k) <= logPost (enroll (k+1)). Partial: uniqueness of the mode / fixed point = mode / convergence of the iterates are not proved in Lean; they are decided by the search (joint mode by solving the joint linear system, contraction of the log-posterior gap over 40/400/4000 iterations).",
+        "Real arithmetic; np.linalg.inv is a parameter (contract: exact inverse). Convergence clause partial (search only). Found and fixed D7.",
         "§6 C07",
     ),
     "C11": (
